@@ -357,6 +357,109 @@ async fn burst(srv: std::sync::Arc<Server>, rng: &mut Rng, cases: u64, tag: &str
 }
 
 
+/// one reply frame starting at `from`: (wire, end offset)
+fn parse_resp_reply_at(buf: &[u8], from: usize) -> Option<(Wire, usize)> {
+    let line = |at: usize| -> Option<(String, usize)> { find(&buf[at..], b"\r\n").map(|p| (String::from_utf8_lossy(&buf[at..at + p]).to_string(), at + p + 2)) };
+    let (l0, mut i) = line(from)?;
+    match l0.chars().next()? {
+        '-' => Some((Wire::Err(format!("resp:{}", l0.chars().take(80).collect::<String>())), i)),
+        '*' => {
+            let n: usize = l0[1..].parse().ok()?;
+            let mut v = Vec::new();
+            for _ in 0..n { let (l, j) = line(i)?; i = j; if !l.starts_with(':') { return Some((Wire::Broken(format!("array element {l:?}")), i)); } v.push(l[1..].parse::<i64>().ok()?); }
+            if n != 5 || (v[0] != 0 && v[0] != 1) { return Some((Wire::Broken(format!("array {v:?}")), i)); }
+            Some((Wire::Ok { a: v[0] == 1, lim: v[1], rem: v[2], reset: v[3], retry: v[4] }, i))
+        }
+        _ => Some((Wire::Broken(format!("unexpected reply {l0:?}")), i)),
+    }
+}
+
+/// C09 (one shared limiter, every request applied exactly once) with a PIPELINING client: N unit THROTTLE commands on a fresh key
+/// written on ONE RESP connection as two segments cut inside a later command (or as one write longer than the server's read
+/// chunk), all replies read, then M unit requests over HTTP / gRPC one after the other.  One connection stamps its commands in
+/// order, so the answers are exact: request i (0-based, all N + M in order) is allowed iff i < max_burst, remaining max_burst-1-i.
+async fn pipeline(srv: &Server, rng: &mut Rng, cases: u64, tag: &str) {
+    for c in 0..cases {
+        if unresponsive() { break; }
+        let b = rng.range(2, 40);
+        let n = *rng.pick(&[2usize, 3, 5, 8, 12, 20, 40]);
+        let m = rng.range(1, 4) as usize;
+        let key = format!("{tag}pl{c}");
+        let r = LReq { key: key.clone(), b, count: 1, period: 3600, q: Some(1) };
+        let mut bytes = Vec::new();
+        let mut starts = Vec::new();
+        for _ in 0..n { starts.push(bytes.len()); bytes.extend_from_slice(&resp_cmd(&r, rng.below(12))); }
+        // cut inside command j >= 1 (never on a boundary), or no cut at all
+        let cut = if rng.chance(1, 4) { 0 } else { let j = rng.range(1, n as i64 - 1).max(1) as usize; let lo = starts[j] + 1; let hi = if j + 1 < n { starts[j + 1] } else { bytes.len() }; lo + rng.below((hi - lo).max(1) as u64) as usize };
+        let mut replies: Vec<Wire> = Vec::new();
+        let mut extra = 0usize;
+        match TcpStream::connect(("127.0.0.1", srv.redis)).await {
+            Err(e) => replies.push(Wire::Broken(format!("resp connect: {e}"))),
+            Ok(mut s) => {
+                let _ = s.set_nodelay(true);
+                let ok = if cut == 0 { s.write_all(&bytes).await.is_ok() } else {
+                    let a = s.write_all(&bytes[..cut]).await.is_ok();
+                    tokio::time::sleep(Duration::from_millis(30)).await;
+                    a && s.write_all(&bytes[cut..]).await.is_ok()
+                };
+                if !ok { replies.push(Wire::Broken("write failed".into())); }
+                let mut buf = Vec::new();
+                let mut off = 0usize;
+                let mut tmp = [0u8; 8192];
+                // read until N replies are in, then 150 ms more for replies that must not exist
+                let mut deadline = tokio::time::Instant::now() + Duration::from_secs(4);
+                loop {
+                    while let Some((w, e)) = parse_resp_reply_at(&buf, off) { off = e; if replies.len() < n { replies.push(w); } else { extra += 1; } }
+                    if replies.len() >= n && extra == 0 && deadline > tokio::time::Instant::now() + Duration::from_millis(150) { deadline = tokio::time::Instant::now() + Duration::from_millis(150); }
+                    match tokio::time::timeout_at(deadline, s.read(&mut tmp)).await { Ok(Ok(0)) | Ok(Err(_)) | Err(_) => break, Ok(Ok(k)) => buf.extend_from_slice(&tmp[..k]) }
+                }
+            }
+        }
+        let mut others = Vec::new();
+        let mut protos = Vec::new();
+        for _ in 0..m { let proto = rng.below(2); protos.push(proto); others.push(send(srv, proto, &r, rng.below(1000)).await); }
+        println!("{{\"mode\":\"pipeline\",\"case\":{c},\"b\":{b},\"n\":{n},\"cut\":{cut},\"bytes\":{},\"resp_replies\":[{}],\"extra_replies\":{extra},\"then_protos\":{:?},\"then\":[{}]}}",
+            bytes.len(), replies.iter().map(|w| w.json()).collect::<Vec<_>>().join(","), protos, others.iter().map(|w| w.json()).collect::<Vec<_>>().join(","));
+    }
+}
+
+/// C12 on LONG-LIVED RESP connections: 300 unit THROTTLE commands on one connection, each one reaching the server in more than
+/// one read (variant 0: a 1500-byte key, larger than the server's read chunk; variant 1: header and arguments written as two
+/// segments; variant 2: whole commands).  max_burst 1000, 1 per 3600 s: command i must be answered allowed, remaining 999 - i.
+async fn long_session(srv: &Server, tag: &str) {
+    for variant in 0..3u64 {
+        let n = 300usize;
+        let key = if variant == 0 { format!("{tag}long{}", "k".repeat(1500)) } else { format!("{tag}long{variant}") };
+        let r = LReq { key, b: 1000, count: 1, period: 3600, q: Some(1) };
+        let mut first_bad: i64 = -1;
+        let mut bad = String::from("null");
+        let mut answered = 0usize;
+        if let Ok(mut s) = TcpStream::connect(("127.0.0.1", srv.redis)).await {
+            let _ = s.set_nodelay(true);
+            for i in 0..n {
+                let raw = resp_cmd(&r, i as u64);
+                let ok = if variant == 1 {
+                    let cut = 4 + (i % 9);            // inside the command, after the array header
+                    let a = s.write_all(&raw[..cut]).await.is_ok(); let _ = s.flush().await;
+                    tokio::time::sleep(Duration::from_millis(1)).await;
+                    a && s.write_all(&raw[cut..]).await.is_ok()
+                } else { s.write_all(&raw).await.is_ok() };
+                let w = if !ok { Wire::Broken("write failed: connection closed by the server".into()) } else {
+                    let mut buf = Vec::new(); let mut tmp = [0u8; 512];
+                    loop {
+                        if let Some(w) = parse_resp_reply(&buf) { break w; }
+                        match tokio::time::timeout(Duration::from_secs(3), s.read(&mut tmp)).await { Ok(Ok(0)) => break Wire::Err("resp:closed".into()), Ok(Ok(k)) => buf.extend_from_slice(&tmp[..k]), _ => break Wire::Broken("no reply".into()) }
+                    }
+                };
+                let good = matches!(&w, Wire::Ok { a: true, lim: 1000, rem, retry: 0, .. } if *rem == 999 - i as i64);
+                if !good { first_bad = i as i64; bad = w.json(); break; }
+                answered += 1;
+            }
+        } else { first_bad = 0; bad = "{\"broken\":\"connect\"}".into(); }
+        println!("{{\"mode\":\"long\",\"variant\":{variant},\"n\":{n},\"answered_correctly\":{answered},\"first_bad\":{first_bad},\"bad_wire\":{bad}}}");
+    }
+}
+
 /// C12 / C09 on PERSISTENT connections: three unit requests on one connection (burst 2, one token per 300 ms), an idle gap of
 /// 1000 ms on that connection, then one more request: the decision must be the library's for the time the request ARRIVES.
 async fn idle(srv: &Server, rounds: u64, tag: &str) {
@@ -461,6 +564,22 @@ async fn poison(srv: &Server, rng: &mut Rng, cases: u64, tag: &str) {
             }
             prefix.push(format!("{{\"what\":{:?},\"wire\":{}}}", desc, w.json()));
         }
+        // hostile KEYS on valid requests that end in a denial (the denied path feeds the denied-keys table of the metrics):
+        // long keys whose 256th byte falls inside a multi-byte character, 256 / 257 bytes, empty, quotes / line breaks / NUL
+        {
+            let hk: Vec<String> = vec![format!("k{}", "\u{e9}".repeat(200)), format!("kk{}", "\u{20ac}".repeat(100)), "x".repeat(256), "x".repeat(257), "\u{e9}".repeat(128),
+                                       format!("{}\u{1F600}", "y".repeat(254)), "".into(), "q\"uote\\".into(), "line\r\nbreak".into(), "nul\u{0}byte".into(), "z".repeat(5000)];
+            let base = hk[(c as usize) % hk.len()].clone();
+            let proto = rng.below(3);
+            // unique per case (prefix), same byte layout behind it
+            let key = format!("{}{}", base, if base.is_empty() { String::new() } else { format!("{tag}{c}") });
+            let key = if base.len() > 200 { format!("{}{}", &tag[..1], base) } else { key };
+            let r = LReq { key: key.clone(), b: 1, count: 1, period: 1000, q: Some(1) };
+            for round in 0..3 {
+                let w = send(srv, proto, &r, rng.below(1000)).await;
+                prefix.push(format!("{{\"what\":{:?},\"wire\":{}}}", format!("valid request #{round} on proto {proto} with a hostile key of {} bytes (max_burst 1: #1 and #2 are denials)", key.len()), w.json()));
+            }
+        }
         // a slow client: ONE RESP connection fed several commands one byte per write; every command must be answered on it
         let slow = {
             let b = 10i64;
@@ -508,7 +627,11 @@ async fn poison(srv: &Server, rng: &mut Rng, cases: u64, tag: &str) {
             let w1 = send(srv, proto, &r, rng.below(1000)).await;
             // second probe: a NEW connection of the SAME protocol (sharing between protocols is C09's and C12's business)
             let w2 = send(srv, proto, &r, rng.below(1000)).await;
-            probes.push(format!("{{\"proto\":{proto},\"b\":{b},\"first\":{},\"second_other_proto\":{}}}", w1.json(), w2.json()));
+            // and a key that runs dry: the DENIED path must still be answered too
+            let rd = LReq { key: format!("{tag}d{c}_{proto}"), b: 1, count: 1, period: 1000, q: Some(1) };
+            let d1 = send(srv, proto, &rd, rng.below(1000)).await;
+            let d2 = send(srv, proto, &rd, rng.below(1000)).await;
+            probes.push(format!("{{\"proto\":{proto},\"b\":{b},\"first\":{},\"second_other_proto\":{},\"dry_first\":{},\"dry_second\":{}}}", w1.json(), w2.json(), d1.json(), d2.json()));
         }
         let health = http_raw(srv.http, b"GET /health HTTP/1.1\r\nHost: x\r\nConnection: close\r\n\r\n", false).await.map(|(s, b)| s == 200 && b == "OK").unwrap_or(false);
         println!("{{\"mode\":\"poison\",\"case\":{c},\"prefix\":[{}],\"slow_client\":{slow},\"probes\":[{}],\"health\":{health},\"unresponsive\":{}}}", prefix.join(","), probes.join(","), unresponsive());
@@ -532,7 +655,8 @@ async fn main() {
         match mode.as_str() {
             "fidelity" => fidelity(&srv, &mut rng, cases, &tag).await,
             "burst" => burst(srv.clone(), &mut rng, cases, &tag).await,
-            "idle" => idle(&srv, cases, &tag).await,
+            "idle" => { idle(&srv, cases, &tag).await; long_session(&srv, &tag).await; }
+            "pipeline" => pipeline(&srv, &mut rng, cases, &tag).await,
             _ => poison(&srv, &mut rng, cases, &tag).await,
         }
         let mut s = match std::sync::Arc::try_unwrap(srv) { Ok(s) => s, Err(_) => panic!("server handle still shared") };
